@@ -96,11 +96,14 @@ def run_shard(spec, acc):
     shard_pgns = sorted(mine)
     elsewhere = [d_ for d_ in all_defs if d_.pgn not in mine]
     long_lived = []
+    mapping_decoders = set()
     for n_, (lib_map, _) in enumerate(maps):
         given = dict(lib_map)
         co = {}
-        kind_ = n_ % 6
-        if kind_ == 1:
+        kind_ = n_ % 7
+        if kind_ == 6:
+            co = {"build_network_map": True}          # (the two senders of this check announce themselves right below)
+        elif kind_ == 1:
             co = {"dump_to_file": os.path.join(dump_dir, f"all{n_}.jsonl") if quick else "/dev/null"}
         elif kind_ == 2:
             co = {"dump_to_file": os.path.join(dump_dir, f"num{n_}.jsonl"), "dump_pgns": shard_pgns[::2] or [59392]}
@@ -111,8 +114,13 @@ def run_shard(spec, acc):
         elif kind_ == 5 and elsewhere:
             co = {"exclude_pgns": [rng.choice(elsewhere).id, rng.choice(elsewhere).pgn]}
         acc.cover("co_settings_of_decoders_with_preferences", ["none", "dump-everything", "dump-filter-by-number", "dump-filter-by-id", "dump-filter-selects-nothing-here",
-                                                               "pgn-filter-on-other-pgns"][kind_] if co or kind_ == 0 else "none")
+                                                               "pgn-filter-on-other-pgns", "network-map"][kind_] if co or kind_ == 0 else "none")
         long_lived.append(NMEA2000Decoder(preferred_units=given, **co))
+        if co.get("build_network_map"):
+            from .. import hist
+            mapping_decoders.add(id(long_lived[-1]))
+            for s_ in (4, 7):
+                long_lived[-1].decode_basic_string(wire.plain_line(6, 60928, s_, 255, hist.claim_name(900 + s_, 1851, inst_lo=2).to_bytes(8, "little")), already_combined=True)
         given.clear()
         given[PhysicalQuantities.SPEED] = "kts"
         given[PhysicalQuantities.TEMPERATURE] = "f"
@@ -123,9 +131,25 @@ def run_shard(spec, acc):
         shuffled = list(defs)
         rng.shuffle(shuffled)
         order += shuffled
+    seen_defs = set()
     for d in order:
         nb = d.length if d.length is not None else (d.total_bits() + 7) // 8
         qfields = [f for f in d.fields if f.pq and f.match is None and f.bits is not None]
+        if d.id not in seen_defs and d.fixed_layout:
+            # the first message of this kind that every long-lived decoder sees has nothing in it: every field 'not available'
+            # (a sensor that has just been switched on). What the decoder learns from it about this kind of message is nothing.
+            seen_defs.add(d.id)
+            na_ = (1 << (8 * nb)) - 1
+            for f_ in d.match_fields:
+                na_ = (na_ & ~(f_.mask << f_.off)) | (f_.match << f_.off)
+            if dbx.select(d.pgn, na_) is d:
+                for dec_ in long_lived:
+                    for src_ in (4, 7):
+                        try:
+                            dec_.decode_basic_string(wire.plain_line(3, d.pgn, src_, 255, na_.to_bytes(nb, "little")), already_combined=True)
+                        except Exception:  # noqa: BLE001
+                            pass
+                acc.count("definitions_first_seen_with_every_field_not_available")
         payloads = []
         near, near_for, near_groups = [], {}, {}
         base = gen.base_raws(d, rng, dbx)
@@ -138,6 +162,16 @@ def run_shard(spec, acc):
                     payloads.append(dbx.pack(d, raws))
         for _ in range(2 if quick else 30):
             payloads.append(dbx.pack(d, gen.base_raws(d, rng, dbx)))
+        # a key field (instance, source id ...) that is 'not available' while the readings are there: on decoders that build the
+        # network map the key goes into the hash - the readings are converted all the same
+        pk_na = set()
+        for f in d.fields:
+            if f.pk and f.match is None and f.bits is not None and f.off is not None and f.ftype in ("NUMBER", "LOOKUP") and qfields:
+                raws = dict(base)
+                raws[f.order] = f.mask
+                p_ = dbx.pack(d, raws)
+                payloads.append(p_)
+                pk_na.add(p_)
         # raw values whose exact conversion lies right next to a rounding tie of the library's rounding step
         for f in qfields:
             if f.ftype != "NUMBER" or f.pq not in INVERSE:
@@ -165,6 +199,7 @@ def run_shard(spec, acc):
             for key_ in sorted(near_groups):
                 for raw0_ in rng.sample(sorted(near_groups[key_]), min(2, len(near_groups[key_]))):
                     payloads += near_groups[key_][raw0_]
+            payloads += sorted(pk_na)
         else:
             payloads += near
         for payload in payloads:
@@ -188,6 +223,10 @@ def run_shard(spec, acc):
             if m0 is None:
                 continue
             picks = list(range(len(maps))) if not quick else rng.sample(range(len(maps)), 6)
+            if payload in pk_na:
+                maps_with_mapping = [mi_ for mi_ in range(len(maps)) if id(long_lived[mi_]) in mapping_decoders]
+                picks = maps_with_mapping + [mi_ for mi_ in picks if mi_ not in maps_with_mapping][:2]
+                acc.count("payloads_with_an_absent_key_field_on_mapping_decoders")
             if quick and payload in near_for:
                 # a reading built next to a rounding tie of one conversion is (also) decoded with preferences that ask for it
                 pq_, t_ = near_for[payload]
@@ -237,7 +276,7 @@ def run_shard(spec, acc):
                         acc.violation("preferences-not-applied-to-frame-wise-input", f"{d.id}: decoded frame by frame the fields differ from the same payload decoded pre-assembled "
                                       f"on the same decoder", w)
                         continue
-                if project.msg_proj(m0)[:7] != project.msg_proj(m1)[:7] or m0.hash != m1.hash:
+                if project.msg_proj(m0)[:7] != project.msg_proj(m1)[:7] or (m0.hash != m1.hash and id(dec) not in mapping_decoders):
                     acc.violation("preferences-change-header", f"{d.id}: header/hash changed by preferences", w)
                 n_conv = 0
                 for f0, f1, fd in zip(m0.fields, m1.fields, d.fields):
